@@ -233,6 +233,7 @@ static void run_child(const JVal &spec)
 	c.starve_len = (long) t->num("starve_len", 0);
 	c.preempt_budget = (int) t->num("preempt_budget", 0);
 	c.preempt_gap_log2 = (int) t->num("preempt_gap_log2", 10);
+	c.first_use_delay = (int) t->num("first_use_delay", 0);
 	c.nprocs = (int) t->num("nprocs", 4);
 	c.max_steps = (long) t->num("max_steps", 2000000);
 	c.stall_seconds = (int) t->num("stall_seconds", 300);
@@ -282,10 +283,10 @@ static void print_child_info(FILE *resf)
 	{
 	  const SimStats &s = CS->st;
 	  printf(",\"simt\":{\"steps\":%ld,\"switches\":%ld,\"threads\":%ld,\"lock_ops\":%ld,\"wait_ops\":%ld,\"signal_ops\":%ld,\"broadcast_ops\":%ld,"
-		 "\"signals_lost_empty\":%ld,\"signal_choices\":%ld,\"spurious_fired\":%ld,\"starve_skips\":%ld,\"lock_contended\":%ld,\"max_enabled\":%ld,\"preemptions\":%ld,"
+		 "\"signals_lost_empty\":%ld,\"signal_choices\":%ld,\"spurious_fired\":%ld,\"starve_skips\":%ld,\"lock_contended\":%ld,\"max_enabled\":%ld,\"preemptions\":%ld,\"first_use_delays\":%ld,"
 		 "\"log_hash\":\"%016llx\",\"sched_hash\":\"%016llx\",\"fatal_class\":\"%s\",\"fatal_details\":\"%s\"}",
 		 s.steps, s.switches, s.threads_created, s.lock_ops, s.wait_ops, s.signal_ops, s.broadcast_ops, s.signals_lost_empty, s.signal_choices,
-		 s.spurious_fired, s.starve_skips, s.lock_contended, s.max_enabled, s.preemptions, (unsigned long long) s.log_hash, (unsigned long long) s.sched_hash,
+		 s.spurious_fired, s.starve_skips, s.lock_contended, s.max_enabled, s.preemptions, s.first_use_delays, (unsigned long long) s.log_hash, (unsigned long long) s.sched_hash,
 		 jesc(CS->fatal_class).c_str(), jesc(CS->fatal_details).c_str());
 	}
       if (CS->simm_allocs)
